@@ -227,6 +227,11 @@ def gen_lines(rng, cv, count):
                 kk = abs(kk) & ((1 << 64) - 1)
             P = rng.choice(pool + [cv.g])
             out.append("epm %s %d %s %s" % (v, rng.below(2), ptok(rng, cv, P, "" if v.startswith("fix") else "P"), hx(kk)))
+        # short negative scalars (one digit: the single-digit fast paths and their sign fix-up), result separate from and over the operand
+        if v != "dig":
+            for kk in (-2, -(3 + rng.below(17)), -((1 << 63) + rng.below(1 << 20))):
+                for al in (0, 1):
+                    out.append("epm %s %d %s %s" % (v, al, ptok(rng, cv, rng.choice(pool + [cv.g]), "" if v.startswith("fix") else "P"), hx(kk)))
     # the precomputation tables themselves (every entry), and the fixed-base loops on caller-supplied tables of arbitrary points:
     # the column / digit extraction is tied to the model independently of what a precomputation would store
     small = [cv.mul(cv.g, j) for j in (2, 3, 5, cv.n - 1)]
